@@ -45,6 +45,12 @@
 #ifndef C03_LIMPRI
 #define C03_LIMPRI 0
 #endif
+#ifndef C03_XP
+#define C03_XP 0             /* X's priority (enumerated by the driver) */
+#endif
+#ifndef C03_P0
+#define C03_P0 1             /* U0's priority (enumerated by the driver) */
+#endif
 #define NPRI 3
 #define NU 3
 #define XID 3                /* id of X in traces */
@@ -205,7 +211,9 @@ static void scenario(const int *pri, int xpri, const int *order)
 #if C03_ACTION == A_BREAK
 	if (ngot >= 2 && got[0].id == 0 && got[1].epoch > got[0].epoch) VP_WITNESS("break: the rest ran only in the second loop");
 #endif
-#if C03_ACTION == A_CONTINUE || C03_ACTION == A_ACTIVE_X
+	/* (event_active(X) with X at U0's own priority appends X to the running queue: no restart and
+	 * the next callback always runs in the same pass, so this witness does not exist there) */
+#if C03_ACTION == A_CONTINUE || (C03_ACTION == A_ACTIVE_X && C03_XP != C03_P0)
 	if (ngot >= 2 && got[0].id == 0 && got[1].epoch == got[0].epoch + 1) VP_WITNESS("restart: next callback ran after a new poll");
 #endif
 }
@@ -232,12 +240,6 @@ void harness_sched(void)
 #define L_X(P0, P1, P2) L_O(P0,P1,P2,C03_XP)
 #define L_P2(P0, P1) L_X(P0,P1,0) L_X(P0,P1,1) L_X(P0,P1,2)
 #define L_P1(P0) L_P2(P0,0) L_P2(P0,1) L_P2(P0,2)
-#ifndef C03_XP
-#define C03_XP 0
-#endif
-#ifndef C03_P0
-#define C03_P0 1
-#endif
 	__CPROVER_assume(pri[0] == C03_P0 && xpri == C03_XP);   /* U0's and X's priority are enumerated by the driver */
 	(void)order;
 	L_P1(C03_P0)
